@@ -564,6 +564,7 @@ fn rename_reg_world(w: &crate::reg::RegWorld) -> crate::reg::RegWorld {
     Imp::Dynamic(t) => Imp::Dynamic(rn(t)),
     Imp::Text(t) => Imp::Text(rn(t)),
     Imp::JsonAttr(t) => Imp::JsonAttr(rn(t)),
+    Imp::TsTypes(t, ty) => Imp::TsTypes(rn(t), rn(ty)),
   };
   let mut o = w.clone();
   for p in o.pkgs.iter_mut() {
